@@ -158,6 +158,10 @@ static void mode_helpers(void){
       if(mode==2) e=0; else { int nbf= rfc_dur48(toc)<=960?1:rfc_dur48(toc)/960; /* SILK frames per Opus frame */ int lbrrbit=(fb>>(7-nbf))&1; e=lbrrbit; if(toc&4){ /* stereo: mid flags then side flags */ int sidebit=(fb>>(6-2*nbf))&1; e=lbrrbit||( (6-2*nbf)>=0 ? sidebit:0); if((6-2*nbf)<0) continue; } }
       if(hl!=e) { vc_viol("helpers:has_lbrr","toc=%02x first=%02x got %d expected %d",toc&0xFC,fb,hl,e); break; } }
   }
+  /* total samples: a pure function of TOC, count byte and rate: count x samples-per-frame, refused beyond 120 ms (RFC 6716 R5) -- every TOC x count byte x rate */
+  for(int toc=0;toc<256;toc++) for(int cb=0;cb<256;cb++) for(int k=0;k<5;k++){ unsigned char q[2]={(unsigned char)toc,(unsigned char)cb}; int code=toc&3; int cnt=code==0?1:code<3?2:(cb&63); long tot=(long)cnt*rfc_spf(toc,rates[k]); int e= tot*25>(long)rates[k]*3?OPUS_INVALID_PACKET:(int)tot; int ns=opus_packet_get_nb_samples(q,2,rates[k]);
+      if(ns!=e){ vc_viol("helpers:nb_samples","toc=%02x count byte %02x Fs=%d: get_nb_samples=%d expected %d (%d frames)",toc,cb,rates[k],ns,e,cnt); goto argval; } if(code==3){ int e1=opus_packet_get_nb_samples(q,1,rates[k]); if(e1!=OPUS_INVALID_PACKET){ vc_viol("helpers:nb_samples","code 3 TOC with len 1 returned %d",e1); goto argval; } } vc_count("nb_samples_header_combinations",1); }
+argval:
   /* argument validation */
   { opus_int16 sz[48]; unsigned char x[4]={0,0,0,0}; if(opus_packet_parse_impl(x,-1,0,NULL,NULL,sz,NULL,NULL,NULL,NULL)!=OPUS_BAD_ARG) vc_viol("parse_impl:badarg","len<0 not BAD_ARG"); if(opus_packet_parse_impl(x,4,0,NULL,NULL,NULL,NULL,NULL,NULL,NULL)!=OPUS_BAD_ARG) vc_viol("parse_impl:badarg","size==NULL not BAD_ARG"); if(opus_packet_parse_impl(x,0,0,NULL,NULL,sz,NULL,NULL,NULL,NULL)!=OPUS_INVALID_PACKET) vc_viol("parse_impl:badarg","len==0 not INVALID_PACKET"); }
 }
